@@ -5,6 +5,7 @@ operations leave operands unchanged" say where results live - proved in Props/C1
 correspondence only).
 
 * `binop_field_values`: `a <op> b` for two fields (any classes, numpy broadcasting of whole components);
+* `inplace_field_values`: `a <op>= b` for a field or collection `b` (and `a`);
 * `negate_field_values`: `-f`;
 * `copy_collection_reads_members`: `fc.copy(dtype=..)` of a collection reads the CURRENT data of the member objects,
   in order, converted to the dtype of the copy.
@@ -143,6 +144,47 @@ theorem binop_field_values {s s' : State K} (hwf : WF s) {bop : BinOp} {a hb : N
     exact ⟨_, a, osrc, Or.inl rfl, hoa, hsrc, key a hoa hca⟩
   · subst e
     exact ⟨_, hb, osrc, Or.inr rfl, hob, hsrc, key hb hob hcb⟩
+
+/-- **values of `a <op>= b` for a field or collection `b`** (`_binary_operation_inplace`, base.py:552-589; `a` may be
+a field or a collection): every valid cell `p` of `a` holds `op(old a[p], b[p mod len b])` (broadcasting of whole
+components), every ghost cell what it held before. -/
+theorem inplace_field_values {s s' : State K} (hwf : WF s) {bop : BinOp} {a hb : Nat} {oa ob : Obj}
+    (hoa : s.objs[a]? = some oa) (hob : s.objs[hb]? = some ob)
+    (hs : step G s (.inplace bop a (.obj hb)) = .ok s') (p : Nat) (hp : p < oa.view.len) :
+    (s'.denote a)[p]? = some
+      (if validSel G oa p = true then opv bop ((s.denote a)[p]?).join (cellOf (s.denote hb) p)
+       else ((s.denote a)[p]?).join) := by
+  obtain ⟨hb', hsz⟩ := hwf a oa hoa
+  have hsz' : oa.view.off + oa.view.len ≤ s.store.size oa.view.buf := by simpa using hsz
+  have hden : (s.denote a)[p]? = some (s.store.read oa.view.buf (oa.view.off + p)) := by
+    unfold State.denote; rw [hoa]
+    exact Store.getElem?_readView _ _ p hp hsz'
+  have hlen : (s.store.readView oa.view).length = oa.view.len := Store.length_readView _ _ hsz'
+  have hdb : s.denote hb = s.store.readView ob.view := by unfold State.denote; rw [hob]
+  have ga : getObj s a = .ok oa := by unfold getObj; rw [hoa]
+  have gb : getObj s hb = .ok ob := by unfold getObj; rw [hob]
+  simp only [step, inplace, ga, gb] at hs
+  split at hs
+  · cases hs
+  split at hs
+  · cases hs
+  split at hs
+  · cases hs
+  split at hs
+  · cases hs
+  split at hs
+  · cases hs
+  cases hs
+  rw [denote_writeSel hwf _ _ _ hoa p hp, hden]
+  have e1 : oa.view.off + p - oa.view.off = p := by omega
+  simp only [e1, Option.join_some]
+  have hcell : cellOf (s.store.readView oa.view) p = s.store.read oa.view.buf (oa.view.off + p) := by
+    unfold cellOf
+    rw [hlen, Nat.mod_eq_of_lt hp, Store.getElem?_readView _ _ p hp hsz']
+    rfl
+  by_cases hv : validSel G oa p = true
+  · rw [if_pos ⟨trivial, by omega, by omega, hv⟩, if_pos hv, hcell, hdb]
+  · rw [if_neg (fun h => hv h.2.2.2), if_neg hv]
 
 /-- **values of `-f`** for a field (base.py:461-471: `cls(grid, data=np.negative(f.data))`): the new object (id
 `s.objs.length`) holds `-x` at every valid cell and NOTHING at its ghost cells (a new padded array whose ghost cells
@@ -328,5 +370,16 @@ example : True := by
     (oa := ⟨.scalar, 0, 1, ⟨0, 0, 4⟩, []⟩) (ob := ⟨.vector, 0, 1, ⟨1, 0, 4⟩, []⟩)
     (wf_run wf_empty _) rfl rfl (by decide) (by decide) rfl
   trivial
+
+/-- the hypotheses of `inplace_field_values` hold for `v *= f` (vector field times scalar field, in place): valid
+cells 3*1 and 4*2, the boundary values 7 and 8 in the ghost cells stay -/
+example : True := by
+  have := inplace_field_values (G := exGrid) (s := run exGrid {} (exVals.take 3))
+    (s' := run exGrid {} (exVals.take 3 ++ [.inplace .mul 1 (.obj 0)])) (bop := .mul) (a := 1) (hb := 0)
+    (oa := ⟨.vector, 0, 1, ⟨1, 0, 4⟩, []⟩) (ob := ⟨.scalar, 0, 1, ⟨0, 0, 4⟩, []⟩)
+    (wf_run wf_empty _) rfl rfl rfl
+  trivial
+example : (run exGrid {} (exVals.take 3 ++ [.inplace .mul 1 (.obj 0)])).denote 1 =
+    [some 7, some 3, some 8, some 8] := by decide +kernel
 
 end PdeVerif.Heap
